@@ -405,13 +405,13 @@ PROPS = {
     "C03": dict(mc=[ATTEST_MC], sim=[ATTEST_SIM, ECON_SIM], static=["attest*.ndjson"],
                 watch=["C03:", "conf:lon", "conf:votes", "conf:lnv"],
                 need={"Claim/ok": 5, "Claim/err": 1, "End/ok": 3}),
-    "C04": dict(mc=[ECON_MC], sim=[ECON_SIM, ECON2_SIM], static=["econ*.ndjson"],
+    "C04": dict(mc=[ECON_MC], sim=[ECON_SIM, ECON2_SIM, GOV_SIM], static=["econ*.ndjson", "gov*.ndjson"],
                 watch=["C04:", "conf:pool", "conf:bat", "conf:st", "conf:cnt"],
                 need={"Send/ok": 5, "Cancel/ok": 1, "ReqBatch/ok": 1, "End/ok": 3}),
     "C10": dict(mc=[ECON_MC], sim=[ECON_SIM], static=["econ*.ndjson"], bulk=["bulk_batch*.ndjson"],
                 watch=["C10:", "conf:bat", "conf:cnt"],
                 need={"Send/ok": 5, "ReqBatch/ok": 1, "Begin/ok": 3}),
-    "C12": dict(mc=[ECON_MC], sim=[ECON_SIM], static=["econ*.ndjson"],
+    "C12": dict(mc=[ECON_MC], sim=[ECON_SIM, GOV_SIM], static=["econ*.ndjson", "gov*.ndjson"],
                 watch=["C12:", "conf:out", "conf:bal", "conf:pool"],
                 need={"Cancel/ok": 1, "Cancel/err": 1, "End/ok": 3}),
     "C13": dict(mc=[ECON_MC], sim=[ECON_SIM, ECON2_SIM], static=["econ*.ndjson"],
@@ -809,7 +809,7 @@ def check_c06(prop, tier, seed, replay_file=None):
             s, st = simulate_scripts(sp, workdir, tier, dev, seed)
             log("[%s] simulation %s: %d behaviours" % (prop, spec["cfg"], len(s)))
             scripts += s
-        scripts += load_static(["econ*.ndjson", "fees*.ndjson", "valset*.ndjson", "attest*.ndjson", "gov*.ndjson"])
+        scripts += load_static(["econ*.ndjson", "fees*.ndjson", "valset*.ndjson", "attest*.ndjson", "gov*.ndjson", "oracle*.ndjson"])
     sp = os.path.join(workdir, "scripts.ndjson")
     with open(sp, "w") as f:
         for sc in scripts:
@@ -996,6 +996,26 @@ def c05_script(i, c, cfgs):
     elif t == "Send":
         acts += [{"k": "Send", "from": "a1", "chain": chain, "dest": "e5", "denom": "hub", "amt": VAL[c["amt"]], "fee": VAL[c["fee"]]},
                  {"k": "ReqBatch", "from": "a1", "chain": chain, "denom": "hub"}]
+    elif t == "Pair":
+        # deposits on `chain` forwarded to the other chain; same=True: both applied in one block, else in consecutive blocks
+        dest = "minter" if chain == "ethereum" else "ethereum"
+        desttok = "1" if dest == "minter" else "t1"
+        amt = {"p255plus": str(2 ** 255 + 2 ** 255 // 50), "small": "5000"}[c["amt"]]
+        fee = VAL[c["fee"]]
+        if c["prior"]:
+            acts += [{"k": "Send", "from": "a1", "chain": dest, "dest": "e5", "denom": "hub", "amt": "100", "fee": "1"}, {"k": "End"},
+                     {"k": "Begin", "dt": 1}, {"k": "End"}, {"k": "Begin", "dt": 1}]
+        d1 = {"t": "Deposit", "n": 1, "tok": hubtok, "amt": amt, "fee": fee, "snd": "e7", "rch": dest, "rcv": "e8", "eh": 2, "txh": "x1"}
+        d2 = dict(d1, n=2, eh=3, txh="x2")
+        acts += claims(d1)
+        if not c["same"]:
+            acts += [{"k": "End"}, {"k": "Begin", "dt": 1}]
+        acts += claims(d2)
+        acts += [{"k": "End"}, {"k": "Begin", "dt": 1}, {"k": "End"}, {"k": "Begin", "dt": 1}, {"k": "End"}, {"k": "Begin", "dt": 1}]
+        if c["exec"]:
+            for bn in (1, 2):
+                ev = {"t": "Exec", "n": bn, "tok": desttok, "bn": bn, "eh": 3 + bn, "txh": "x%d" % (7 + bn), "fp": "1", "fpr": "e9"}
+                acts += [{"k": "Claim", "by": v, "chain": dest, "ev": ev} for v in ("v1", "v2", "v3")]
     acts += [{"k": "End"}, {"k": "Blocks", "n": 2}]
     return {"id": "tot-%d" % i, "family": "totality", "cfg": cfg, "acts": acts}
 
@@ -1042,7 +1062,8 @@ def check_c05(prop, tier, seed, replay_file=None):
     else:
         if tier == "quick":
             random.Random(seed).shuffle(idx)
-            idx = sorted(idx[:900])
+            # the pair cases (sums over several huge values) are few and always run
+            idx = sorted(set(idx[:900]) | {i for i in range(len(cases)) if cases[i]["t"] == "Pair"})
         scripts = [c05_script(i, cases[i], cfgs) for i in idx]
         scripts += load_static(["bulk*.ndjson", "c05*.ndjson", "attest*.ndjson", "econ*.ndjson", "fees*.ndjson"])
         # vote orders: conflicting claims, validators ahead / behind, powers changing (attest family), deposits and executions (econ)
